@@ -73,7 +73,24 @@ let rec spec_of = function
   | L [A "tagged"; s] -> STagged (spec_of s)
   | _ -> failwith "spec"
 
+(* CachedClass model: cc [[cls [args] [[name value] ...]] ...]  -> i<id> | T per call *)
+let rec pyval_of = function
+  | I n -> VInt (z_of_int n)
+  | A "none" -> VNone
+  | L [A "s"; I c] -> VStr (nat_of_int c)
+  | L (A "t" :: vs) -> VTuple (List.map pyval_of vs)
+  | L (A "l" :: vs) -> VList (List.map pyval_of vs)
+  | _ -> failwith "pyval"
+let key_of = function
+  | L [I c; L args; L kws] ->
+      { k_cls = nat_of_int c; k_args = List.map pyval_of args;
+        k_kwargs = List.map (function L [I n; v] -> (nat_of_int n, pyval_of v) | _ -> failwith "kwarg") kws }
+  | _ -> failwith "call"
+
 let handle line = match parse line with
+  | [A "cc"; L calls] ->
+      Stdlib.String.concat " " (List.map (function Inst i -> "i" ^ string_of_int (int_of_nat i) | RaisesTypeError -> "T")
+        (cc_run cinit (List.map key_of calls)))
   | [A "names"] -> Stdlib.String.concat " " (List.map ostring fixed_names)
   | [A "model"; s] ->
       (match model_of (spec_of s) with
